@@ -183,7 +183,13 @@ def ppo_experiences(roll, obs_kind, form):
     return (states, actions, logp, rew, dones, vals, nxt, nd)
 
 
-def ippo_experiences(groups, nd_form):
+def member_label(g, G, order="id"):
+    """number of the g-th member of a homogeneous group in its agent id: in list order, or reversed ("agent_1" listed before
+    "agent_0": the order of agent_ids is the user's, it need not be the lexicographic one)"""
+    return g if order == "id" else G - 1 - g
+
+
+def ippo_experiences(groups, nd_form, order="id"):
     """groups: list of (prefix, roll) with the same T, E; agent ids are f'{prefix}_{g}'.  Shapes as
     train_multi_agent_on_policy produces them for a vectorised environment: per step and agent obs (E,4),
     action (E,1), log-prob (E,1), value (E,1), reward (E,), done (E,); next_obs (E,4);
@@ -194,7 +200,7 @@ def ippo_experiences(groups, nd_form):
     for grp, (prefix, roll) in enumerate(groups):
         T, E, G = roll["T"], roll["E"], roll["G"]
         for g in range(G):
-            aid = f"{prefix}_{g}"
+            aid = f"{prefix}_{member_label(g, G, order)}"
             exp[0][aid] = [np.stack([_obs("box", t, e, g, E, G, grp) for e in range(E)]) for t in range(T)]
             exp[1][aid] = [np.array([[code(t, e, g, E, G)] for e in range(E)], dtype=np.int64) for t in range(T)]
             exp[2][aid] = [np.array([[-(code(t, e, g, E, G) + 1)] for e in range(E)], dtype=f32) for t in range(T)]
@@ -390,16 +396,16 @@ def run_ppo(roll, obs_kind="box", form="vector", perturb_seed=None):
     return _trace("ppo", roll, variant, recs, exc, ("ppo.gae", "ppo.rows"), obs_kind, 0, second)
 
 
-def run_ippo(groups, nd_form="loop", perturb_seed=None):
+def run_ippo(groups, nd_form="loop", perturb_seed=None, order="id"):
     """one IPPO.learn call; groups = [(prefix, roll), ...]; returns one trace per group"""
-    ids = [f"{p}_{g}" for p, r in groups for g in range(r["G"])]
+    ids = [f"{p}_{member_label(g, r['G'], order)}" for p, r in groups for g in range(r["G"])]
     r0 = groups[0][1]
     agent = ippo_agent(ids, r0["gn"], r0["ln"])
     assert list(agent.shared_agent_ids) == [p for p, _ in groups], agent.shared_agent_ids
 
     def go(gs):
         stubs = [CriticStub(agent.critics[i], r["T"], r["E"], r["G"], i, r["nv"], "box") for i, (_, r) in enumerate(gs)]
-        recs, exc = _call(agent, ippo_experiences(gs, nd_form), stubs)
+        recs, exc = _call(agent, ippo_experiences(gs, nd_form, order), stubs)
         if not exc and any(s.hits != 1 for s in stubs):
             exc = f"HarnessError: critic evaluated on the final next observation {[s.hits for s in stubs]} times"
         return recs, exc
@@ -422,7 +428,7 @@ def run_ippo(groups, nd_form="loop", perturb_seed=None):
         if pgs is not None:
             pm = [(n, f) for n, f in precs if n in ("ippo.gae", "ippo.rows")][2 * i:2 * i + 2]
             second = (pgs[i][1], pm, pexc)
-        variant = {"obs": "box", "nd_form": nd_form, "groups": len(groups), "group": i}
+        variant = {"obs": "box", "nd_form": nd_form, "groups": len(groups), "group": i, "order": order}
         out.append(_trace("ippo", roll, variant, mine, exc, ("ippo.gae", "ippo.rows"), "box", i, second))
     return out
 
